@@ -29,6 +29,12 @@ def run(ctx):
         ("schema.list(schema.int)", "[1, ..., 2]"), ("schema.list", "[1, ..., 2]"),
         ("schema.dict({'a': schema.int})", "{'a': ...}"), ("schema.float", "float('nan')"),
         ("schema.list([schema.float])", "[float('nan')]"),
+        # the substitutor's OWN messages (not the validation formatter's) print the value: F38
+        ("schema.any", "(7**6000,)"), ("schema.dict", "{'a': (7**6000,)}"), ("schema.list", "[1, {7**6000}]"),
+        ("schema.any(schema.dict({'a': schema.int(1), ...: ...}))", "{'a': 1, 'b': (7**6000,)}"),
+        ("schema.any(schema.any(schema.dict({'': schema.datetime, ...: ...})))", "{'': 7**6000}"),
+        ("schema.any(schema.dict({'a': schema.int, ...: ...}), schema.list)", "{'a': 1, 'b': {10**5000: 1, 'k': (0,)}}"),
+        ("schema.dict({'a': schema.int, ...: ...})", "{7**6000: 1}"), ("schema.dict({...: ...})", "{(7**6000,): (1,)}"),
     ]
     for ssrc, vsrc in directed:
         c = ssuite.SCase()
